@@ -14,7 +14,9 @@ RULE = ("mutable types x histories in which ~40% of the commands are invalid (ou
         "views; after each command: raised-or-not and root+encoding of every held view are compared with the model, and "
         "(model-free) a failed command must leave every held view exactly as before; constructors of containers / lists / "
         "vectors given, for one field or element, a view of ANOTHER type whose content does not fit (wrong vector length, "
-        "over-limit list, out-of-range wider uint) must raise; non-trivial = >= 1 failing command")
+        "over-limit list, out-of-range wider uint) must raise; slice assignments x[a:b] = values: valid ones equal the "
+        "element-wise assignments, invalid ones (uncoercible element, wrong count, past the end) raise and leave "
+        "the view unchanged; non-trivial = >= 1 failing command")
 
 
 def gen_inputs(ctx):
@@ -30,6 +32,7 @@ def gen_inputs(ctx):
         if bad[0] == "val":
             yield {"t": t, "v": bad[1], "cmds": []}
     yield from gen_foreign(ctx)
+    yield from gen_sliceset(ctx)
 
 
 def foreign_view(rng, e):
@@ -118,6 +121,83 @@ def build_foreign(inp):
     return c
 
 
+def gen_sliceset(ctx):
+    """slice assignment x[a:b] = values on lists / vectors / bitfields: valid ones, and ones that must fail (an element
+    that cannot be coerced, the wrong number of values, a slice reaching past the end)"""
+    rng = ctx.rng
+    n = 200 if ctx.thorough else 50
+    pool = [t for t in MUTABLE_TOP if t[0] in ("list", "vec", "bitlist", "bitvec")]
+    for q in range(n):
+        t = pool[q % len(pool)]
+        v = gen_value(rng, t, cap=8)
+        ln = len(v)
+        if ln < 2:
+            continue
+        a = rng.randrange(0, ln - 1)
+        b = rng.randrange(a + 1, ln + 1)
+        e = ["bool"] if t[0] in ("bitlist", "bitvec") else t[1]
+        vals = [gen_arg(rng, e) for _ in range(b - a)]
+        mode = rng.choice(["ok", "ok", "bad_elem", "too_few", "too_many", "past_end"])
+        if mode == "bad_elem":
+            bad = gen_arg(rng, e, valid=False)
+            if bad[0] == "none" or t[0] in ("bitlist", "bitvec") or b - a < 2:
+                mode = "too_few"
+            else:
+                vals[rng.randrange(1, b - a)] = bad       # not the first one: something is written before it fails
+        if mode == "too_few":
+            vals = vals[:-1] if len(vals) > 1 else vals
+            if len(vals) == b - a:
+                mode = "ok"
+        if mode == "too_many":
+            vals = vals + [gen_arg(rng, e)]
+        if mode == "past_end":
+            b = ln + rng.choice([1, 2])
+            vals = [gen_arg(rng, e) for _ in range(b - a)]
+        yield {"t": t, "v": v, "cmds": [], "sliceset": {"a": a, "b": b, "vals": vals, "mode": mode}}
+
+
+def build_sliceset(inp):
+    t, v, ss = inp["t"], inp["v"], inp["sliceset"]
+    e = ["bool"] if t[0] in ("bitlist", "bitvec") else t[1]
+    why = None
+    try:
+        x, y = to_py(t, v), to_py(t, v)
+        before = (bytes(x.hash_tree_root()), bytes(x.encode_bytes()))
+        try:
+            pvals = [arg_py(e, a) for a in ss["vals"]]
+        except Exception:
+            pvals = None          # the invalid element cannot even be built as a Python argument: nothing to run
+        raised = None
+        if pvals is None:
+            raise StopIteration
+        try:
+            x[ss["a"]:ss["b"]] = pvals
+        except Exception as ex:  # noqa
+            raised = ex
+        after = (bytes(x.hash_tree_root()), bytes(x.encode_bytes()))
+        if ss["mode"] == "ok":
+            # the same assignments one by one
+            for k, pv in enumerate(pvals):
+                y[ss["a"] + k] = pv
+            if raised is not None:
+                why = "a valid slice assignment raised %r" % (raised,)
+            elif after != (bytes(y.hash_tree_root()), bytes(y.encode_bytes())):
+                why = "slice assignment differs from assigning the same elements one by one"
+        else:
+            if raised is None:
+                why = "an invalid slice assignment (%s) was accepted" % ss["mode"]
+            elif after != before:
+                why = "a failed slice assignment (%s: %r) left a partial write behind" % (ss["mode"], raised)
+    except StopIteration:
+        why = None
+    except Exception as ex:  # noqa
+        why = "slice assignment scenario could not be run: %r" % (ex,)
+    coq, obs, _ = execute({"t": t, "v": v, "cmds": []})
+    c = Case(inp, coq, obs, ["P:initial"], nontrivial=True, kind="sliceset:" + ss["mode"])
+    c.why = why
+    return c
+
+
 def matches_known(case, match):
     return match.get("site") == "constructor_given_view_of_another_type" and case.kind == "ctor_foreign_view"
 
@@ -125,6 +205,8 @@ def matches_known(case, match):
 def build(inp):
     if "foreign" in inp:
         return build_foreign(inp)
+    if "sliceset" in inp:
+        return build_sliceset(inp)
     try:
         to_py(inp["t"], inp["v"])
     except Exception:
